@@ -329,6 +329,8 @@ func (m *refModel) applyRef(a pt.Action, vals []interface{}, commit bool) refRes
 			hasNil = true
 		} else if rv := reflect.ValueOf(v); rv.Kind() == reflect.Ptr && rv.IsNil() {
 			hasNil = true
+		} else if f, ok := v.(float64); ok && (math.IsNaN(f) || math.IsInf(f, 0)) {
+			hasNil = true // JSON has no such number: refused like null
 		}
 	}
 	switch a.Op {
@@ -533,6 +535,7 @@ func c03Calls(ref *refModel, alpha string) []pt.Action {
 		add(pt.Action{Op: "put", K: "", V: "p"})
 		add(pt.Action{Op: "put", K: "a", V: "nil"})
 		add(pt.Action{Op: "put", K: "a", V: "tnil"})
+		add(pt.Action{Op: "put", K: "a", V: "nan"})
 		add(pt.Action{Op: "rem", K: ""})
 		if rich {
 			add(pt.Action{Op: "put", K: "a", V: "num"})
@@ -549,6 +552,7 @@ func c03Calls(ref *refModel, alpha string) []pt.Action {
 		add(pt.Action{Op: "ins1", P: n + 1, V: "p"})
 		add(pt.Action{Op: "ins1", P: 0, V: "nil"})
 		add(pt.Action{Op: "ins1", P: 0, V: "tnil"})
+		add(pt.Action{Op: "ins1", P: 0, V: "nan"})
 		for _, p := range uniq(0, n/2, n-1) {
 			if p >= 0 && p < n {
 				add(pt.Action{Op: "del1", P: p})
@@ -590,6 +594,7 @@ func c03Calls(ref *refModel, alpha string) []pt.Action {
 			if t == "" || rich {
 				add(pt.Action{Op: "dput", T: t, K: "a", V: "tnil"})
 				add(pt.Action{Op: "dput", T: t, K: "a", V: "nil"})
+				add(pt.Action{Op: "dput", T: t, K: "a", V: "nan"})
 				add(pt.Action{Op: "dins", T: t, P: 0, V: "p", N: 1}) // wrong container kind
 			}
 			if t == "" && rich {
